@@ -380,7 +380,15 @@ pub fn replay(args: &[String]) {
 						let act_n = if via == "typed" { act.clone() } else { act.clone() };
 						out.checked += 1;
 						if act_n != exp {
-							let cls = if act.get("panic").is_some() { "panic" } else { "value" };
+							let mut cls = if act.get("panic").is_some() { "panic" } else { "value" }.to_string();
+							// Past::peek: the listed finding is "peek returns the newest INPUT"; any other wrong value is a different violation
+							if *subject == "Past" && (op == "peek" || op == "peek0") && cls == "value" {
+								let hi = o["hi"].as_i64().unwrap_or(0);
+								let newest = &xs[if hi >= 1 { (hi - 1) as usize } else { 0 }];
+								if act != json!([bits(newest.s() as f64)]) {
+									cls = "value@not-newest-input".to_string();
+								}
+							}
 							let pclass = if *subject == "SWMA" && p[0] == 1 { "SWMA(1)".to_string() } else { subject.to_string() };
 							out.mismatch(
 								&format!("{pclass}:{op}:{cls}"),
